@@ -114,3 +114,71 @@ func replayNative(w *World, spec *Spec, hdir, prop string, pkgPath, pkgName, har
 	}
 	return replayOutcome{status: "not-reproduced", detail: res, supported: true}
 }
+
+// cmdReplay is `gosym replay <replay.json>`: runs the recorded counterexample natively (go test
+// -overlay against /repo's current tree). Exit 1 with a VIOLATION line when it reproduces, 0 when
+// the current tree passes it, 2 on error.
+func cmdReplay(args []string) int {
+	if len(args) != 1 {
+		fmt.Fprintln(os.Stderr, "usage: gosym replay /verif/replays/<prop>/<harness>-<n>.json")
+		return 2
+	}
+	path, err := filepath.Abs(args[0])
+	if err != nil {
+		fmt.Println("ENGINE-ERROR:", err)
+		return 2
+	}
+	b, err := os.ReadFile(path)
+	if err != nil {
+		fmt.Println("ENGINE-ERROR:", err)
+		return 2
+	}
+	var v Violation
+	if err := json.Unmarshal(b, &v); err != nil || v.Harness == "" {
+		fmt.Println("ENGINE-ERROR: not a replay file:", path)
+		return 2
+	}
+	prop := filepath.Base(filepath.Dir(path))
+	hdir := filepath.Join(verifDir, "harness", prop)
+	sb, err := os.ReadFile(filepath.Join(hdir, "spec.json"))
+	if err != nil {
+		fmt.Println("ENGINE-ERROR:", err)
+		return 2
+	}
+	var spec Spec
+	if err := json.Unmarshal(sb, &spec); err != nil {
+		fmt.Println("ENGINE-ERROR: spec.json:", err)
+		return 2
+	}
+	// the harness file that defines the entry point gives the package
+	pkgPath, pkgName := "", ""
+	for virt, real := range spec.Files {
+		src, err := os.ReadFile(filepath.Join(hdir, real))
+		if err != nil || !strings.Contains(string(src), "func "+v.Harness+"(") {
+			continue
+		}
+		pkgPath = modulePath + "/" + filepath.ToSlash(filepath.Dir(virt))
+		for _, l := range strings.Split(string(src), "\n") {
+			if strings.HasPrefix(l, "package ") {
+				pkgName = strings.TrimSpace(strings.TrimPrefix(l, "package "))
+				break
+			}
+		}
+	}
+	if pkgPath == "" || pkgName == "" {
+		fmt.Printf("ENGINE-ERROR: harness %s not found in %s\n", v.Harness, hdir)
+		return 2
+	}
+	w := &World{thorough: os.Getenv("VERIF_TIER") == "thorough"}
+	oc := replayNative(w, &spec, hdir, prop, pkgPath, pkgName, v.Harness, &v, path)
+	fmt.Printf("replay %s [%s: %s]\n  native replay: %s (%s)\n", path, v.Kind, v.Msg, oc.status, oc.detail)
+	switch {
+	case oc.reproduced:
+		fmt.Printf("VIOLATION property=%s replay=%s\n", prop, path)
+		return 1
+	case oc.status == "not-reproduced":
+		fmt.Println("OK: the recorded counterexample does not fail on the current tree")
+		return 0
+	}
+	return 2
+}
